@@ -1,4 +1,5 @@
 import Acra.Lemmas.Reassembly
+import Acra.Lemmas.ReviewReassembly
 namespace Acra.Props.C16
 open Acra.Py Acra.Model.Net Acra.Lemmas.Reassembly
 
@@ -79,5 +80,75 @@ example : Distinct (mkFrags [(IP.fresh, [1, 2, 3, 4, 5, 6, 7, 8]), ({ IP.fresh w
   · intro a ha b hb
     simp [mkFrags] at ha hb
     rcases ha with rfl | rfl <;> rcases hb with rfl | rfl <;> rfl
+
+/-! ### added by the rev2 review -/
+
+/-- the general form behind `combine_cut`: ANY list of fragments with one identification whose offsets are strictly
+    ascending, supplied in ANY order, reassembles to the concatenation of their payloads in offset order with the
+    lowest fragment's header fields -/
+theorem combine_sorted_perm (s l : List IP) (hs : s.Pairwise fun a b => a.fragment_offset < b.fragment_offset)
+    (hid : SameId s) (hperm : l.Perm s) : combine (l.map .ip) = .ok (combineSorted s) := by
+  have hdist : Distinct s := List.Pairwise.imp (fun h => Nat.ne_of_lt h) hs
+  have hdl : Distinct l := (List.Perm.pairwise_iff (fun h => Ne.symm h) hperm.symm).1 hdist
+  rw [combine_ok l (SameId_perm hperm.symm hid), sortFrags_perm hperm hdl, sortFrags_sorted _ hs]
+
+/-- **cut at 8-byte boundaries, offsets in 8-byte units** (what an IPv4 header carries; `combine_cut` above numbers the
+    fragments by BYTE offset): the fragments of a payload cut at positive multiples of 8 — every piece but the last a
+    positive multiple of 8 bytes long — with `fragment_offset = byte offset / 8`, supplied in ANY order, reassemble to
+    the payload with the first fragment's header fields and cleared fragmentation fields -/
+theorem combine_cut8 (h0 : IP) (p0 : Bytes) (rest : List (IP × Bytes)) (l : List IP)
+    (h8 : ∀ hp ∈ ((h0, p0) :: rest).dropLast, 0 < hp.2.length ∧ hp.2.length % 8 = 0)
+    (hid : SameId (mkFrags8 ((h0, p0) :: rest) 0))
+    (hperm : l.Perm (mkFrags8 ((h0, p0) :: rest) 0)) :
+    ∃ c, combine (l.map .ip) = .ok c ∧
+      c.payload = p0 ++ (rest.map (·.2)).flatten ∧
+      c.srcip = h0.srcip ∧ c.dstip = h0.dstip ∧ c.protocol = h0.protocol ∧ c.version = h0.version ∧
+      c.ihl = h0.ihl ∧ c.dscp = h0.dscp ∧ c.ident = h0.ident ∧ c.ttl = h0.ttl ∧
+      c.flags = 0 ∧ c.fragment_offset = 0 := by
+  refine ⟨_, combine_sorted_perm _ l (mkFrags8_sorted _ 0 h8) hid hperm, ?_⟩
+  have hp := mkFrags8_payload ((h0, p0) :: rest) 0
+  simp only [combineSorted, hp]
+  simp [mkFrags8]
+
+/-- non-vacuity: a 19-byte payload cut 8 + 8 + 3, the three fragments (own TTLs, one identification) supplied in the
+    order 3rd, 1st, 2nd; their wire offsets are 0, 1, 2 -/
+example :
+    let parts : List (IP × Bytes) := [({ IP.fresh with ident := 0 }, [1, 2, 3, 4, 5, 6, 7, 8]),
+      ({ IP.fresh with ident := 0, ttl := 3 }, [9, 10, 11, 12, 13, 14, 15, 16]), ({ IP.fresh with ident := 0, ttl := 4 }, [17, 18, 19])]
+    (∀ hp ∈ parts.dropLast, 0 < hp.2.length ∧ hp.2.length % 8 = 0) ∧ SameId (mkFrags8 parts 0) ∧
+    (mkFrags8 parts 0).map (·.fragment_offset) = [0, 1, 2] ∧
+    ((mkFrags8 parts 0).rotateRight 1).Perm (mkFrags8 parts 0) := by
+  refine ⟨by decide, ?_, by decide, ?_⟩
+  · intro a ha b hb
+    simp [mkFrags8] at ha hb
+    rcases ha with rfl | rfl | rfl <;> rcases hb with rfl | rfl | rfl <;> rfl
+  · simp only [List.rotateRight]
+    exact (List.perm_append_comm)
+
+/-- the hypothesis `Distinct` of `combine_perm` cannot be dropped: two fragments with the SAME offset and different
+    payloads reassemble differently in the two orders (the sort is stable) -/
+example :
+    let a : IP := { IP.fresh with payload := [1] }
+    let b : IP := { IP.fresh with payload := [2] }
+    [a, b].Perm [b, a] ∧
+    (match combine ([a, b].map .ip), combine ([b, a].map .ip) with
+     | .ok x, .ok y => x.payload != y.payload
+     | _, _ => false) = true :=
+  ⟨List.Perm.swap _ _ _, by decide⟩
+
+/-- non-vacuity of `combine_cut` (byte offsets): the pieces, the identification and a non-trivial arrival order -/
+example :
+    let parts : List (IP × Bytes) := [(IP.fresh, [1, 2, 3, 4, 5, 6, 7, 8]), ({ IP.fresh with ttl := 3 }, [9])]
+    (∀ hp ∈ parts.dropLast, hp.2 ≠ []) ∧ SameId (mkFrags parts 0) ∧ ((mkFrags parts 0).reverse).Perm (mkFrags parts 0) := by
+  refine ⟨by decide, ?_, List.reverse_perm _⟩
+  intro a ha b hb
+  simp [mkFrags] at ha hb
+  rcases ha with rfl | rfl <;> rcases hb with rfl | rfl <;> rfl
+
+/-- non-vacuity of the refusal statements: a foreign element after a fragment; identification 0 against 1 -/
+example : Item.other ∈ [Item.ip IP.fresh, Item.other] ∧
+    Item.ip { IP.fresh with ident := 0 } ∈ [Item.ip { IP.fresh with ident := 0 }, Item.ip { IP.fresh with ident := 1 }] ∧
+    Item.ip { IP.fresh with ident := 1 } ∈ [Item.ip { IP.fresh with ident := 0 }, Item.ip { IP.fresh with ident := 1 }] ∧
+    ({ IP.fresh with ident := 0 } : IP).ident ≠ ({ IP.fresh with ident := 1 } : IP).ident := by decide
 
 end Acra.Props.C16
